@@ -193,7 +193,8 @@ package geom
 //@ func MultiLineString.Simplify
 //@   trusted
 //@ func LineString.TransformXY
-//@   trusted
+//@   requires fn != nil
+//@   ensures result.seq.ctype == s.seq.ctype && NPts(result.seq) == NPts(s.seq)
 //@ func MultiLineString.TransformXY
 //@   trusted
 //@ func Polygon.TransformXY
@@ -201,7 +202,10 @@ package geom
 //@ func MultiPolygon.TransformXY
 //@   trusted
 //@ func Point.TransformXY
-//@   trusted
+//@   requires fn != nil
+//@   ensures result.coords.Type == p.coords.Type && result.full == p.full
+//@   ensures p.full && HasZ(p.coords.Type) ==> same(result.coords.Z, p.coords.Z)
+//@   ensures p.full && HasM(p.coords.Type) ==> same(result.coords.M, p.coords.M)
 //@ func GeometryCollection.forceOrientation
 //@   trusted
 //@ func MultiPolygon.Boundary
@@ -241,7 +245,8 @@ package geom
 //@ func GeometryCollection.walk
 //@   trusted
 //@ func LineString.asLines
-//@   trusted
+//@   ensures fresh(result) && len(result) <= max(0, NPts(s.seq) - 1)
+//@   loop 0 invariant 0 <= i && i <= n && n == NPts(s.seq) && (cap(lines) == 0 || fresh(lines)) && len(lines) <= max(0, i - 1) && cap(lines) >= max(0, n - 1)
 //@ func MultiLineString.asLines
 //@   trusted
 //@ func LineString.IsSimple
@@ -327,7 +332,8 @@ package geom
 //@ func validatePolyNotInsidePoly
 //@   trusted
 //@ func MultiPoint.asXYs
-//@   trusted
+//@   ensures fresh(result) && len(result) <= len(m.points)
+//@   loop 0 invariant -1 <= rangeindex && rangeindex < len(m.points) && (cap(xys) == 0 || fresh(xys)) && len(xys) <= rangeindex + 1 && cap(xys) >= len(m.points)
 //@ func MultiPoint.TransformXY
 //@   trusted
 //@ func MultiPoint.PointOnSurface
@@ -407,3 +413,10 @@ package geom
 //@   ensures result.ctype == m.ctype && len(result.polys) == len(m.polys) && fresh(result.polys)
 //@   loop 0 invariant -1 <= rangeindex && rangeindex < len(m.polys) && len(polys) == len(m.polys) && offset(polys) == 0 && fresh(polys)
 //@   loop 0 invariant forall k :: 0 <= k && k <= rangeindex ==> PolyInv(polys[k]) && polys[k].ctype == m.ctype
+
+// the per-vertex transform keeps the coordinate type and the vertex count (that Z and M are carried over is not decided)
+//@ func transformSequence
+//@   split seq.ctype 0 1 2 3
+//@   requires fn != nil && SeqInv(seq)
+//@   ensures SeqInv(result) && result.ctype == seq.ctype && NPts(result) == NPts(seq) && fresh(result.floats)
+//@   loop 0 invariant 0 <= i && i <= n && n == NPts(seq) && ctype == seq.ctype && len(floats) == i * Dim(seq.ctype) && offset(floats) == 0 && (cap(floats) == 0 || fresh(floats)) && cap(floats) >= n * Dim(seq.ctype)
